@@ -58,6 +58,14 @@ CHECKS = {
           'contraction floor min(min_size, members), load-driven growth ceiling max_size, smoothed load equals an independently '
           'recomputed EMA, and the step response (grow / shrink / hold). Settling: every configuration x steady level k, 12 smoothing windows.',
           'stub channels; one virtual clock; step response only on steps with no closed active member', '3/C06'),
+  'C07': ('B', 'model_checking',
+          'explicit-state BFS by history replay over the real WatermarkPoolSink with stub connections, incl. pending opens and bounded preemption',
+          'For 14 (quick) / 24 (thorough) (min, max, queue) configurations every history of request / completion / queued-timeout / '
+          'connection-death / open-outcome operations up to depth 12/14 is executed on the real pool; connection bound, single lending, FIFO, '
+          'work conservation, max-waiters band, retention after traffic stops, close-fails-waiters-once and a capacity probe (burst of '
+          'max requests) are checked in every state.',
+          'stub connections fail a request sent on a closed connection, as both transports do; behaviour of requests arriving after the '
+          'pool closed is not part of the statement', '3/C07'),
 }
 
 NOT_BUILT = 'check not built yet in this session (planned, see DESIGN.md section 3)'
